@@ -1,5 +1,5 @@
 """C15 — reported positions identify exactly the right tokens."""
-import ast, os
+import ast, os, re
 from collections import Counter
 from .. import core, proggen, pyspec, stdio, lsp
 from .common import Run, corpus_cases, generic_replay, parse_list
@@ -23,6 +23,9 @@ RULE = ("generated programs (proggen: tabs, CRLF, non-ASCII identifiers and text
 WITNESSES = [
     "import pytest\n\n@pytest.mark.usefixtures(\"\"\"\nfoo\"\"\")\ndef test_a():\n    pass\n",                       # C15-multiline-string-span
     "import pytest\n\n@pytest.fixture\ndef \\\n    foo():\n    return 1\n\n@pytest.fixture\ndef\te():\n    return 2\n",     # C15-def-name-search
+    # (fixed) outgoing-call fromRanges were found by text search on the def line: the function's own name or a
+    # longer identifier containing the parameter's name
+    "import pytest\n\n@pytest.fixture\ndef my():\n    return 1\n\n@pytest.fixture\ndef my_fixture(my):\n    return my\n\n@pytest.fixture\ndef foo(foo, my):\n    return 1\n",
 ]
 
 
@@ -189,6 +192,23 @@ def stdio_part(run, progs, base):
                         if not (le(outer["start"], rg["start"]) and le(rg["end"], outer["end"])):
                             kind = "C15-E17-selection-outside-range"
                             report(f"{jp}: selectionRange {rg} is not inside range {outer} (symbol {cont.get('name')})", kind)
+            # call-hierarchy fromRanges: exactly the parameter identifier that requests the fixture
+            for key, resp in responses.items():
+                if not key.startswith("out") or not resp:
+                    continue
+                for call in resp:
+                    dep = call["to"]["name"]
+                    for fr in call.get("fromRanges", []):
+                        nranges += 1
+                        l, s0, e0 = fr["start"]["line"], fr["start"]["character"], fr["end"]["character"]
+                        lt = lines[l] if l < len(lines) else ""
+                        if fr["end"]["line"] != l or any(ord(ch) > 127 for ch in lt):
+                            continue      # non-ASCII lines: the byte-column finding (E13) is judged above
+                        seg = lt[s0:e0]
+                        isid = lambda ch: ch.isalnum() or ch == "_"
+                        if seg != dep or (s0 > 0 and isid(lt[s0 - 1])) or (e0 < len(lt) and isid(lt[e0])) or re.search(r"\bdef\s+$", lt[:s0]):
+                            report(f"{key}: outgoing call to {dep!r}: fromRange {l}:{s0}-{e0} covers {seg!r} in {lt!r} — "
+                                   f"not the parameter that requests the fixture", None)
             # duplicates in result lists
             for key in responses:
                 r = responses[key]
